@@ -20,6 +20,24 @@ pub const CLASSES: [u32; 16] = [
     16, 24, 32, 48, 64, 80, 96, 112, 128, 256, 384, 512, 640, 768, 896, 1024,
 ];
 
+/// decoder mode for alternative cargo feature sets of the crate (C07 thorough):
+/// VP_DECODE=off (other record format or other hash: API-level checks only),
+/// VP_DECODE=nobitmap (crate built without the occupancy bitmap)
+#[derive(Clone, Copy, PartialEq, Eq, Debug)]
+pub enum Mode {
+    Full,
+    NoBitmap,
+    Off,
+}
+
+pub fn mode() -> Mode {
+    match std::env::var("VP_DECODE").as_deref() {
+        Ok("off") => Mode::Off,
+        Ok("nobitmap") => Mode::NoBitmap,
+        _ => Mode::Full,
+    }
+}
+
 // ---------------------------------------------------------------- vu64 (own implementation)
 
 /// encoded length of a vu64 (prefix code: 7 bits per byte, 9 bytes max)
@@ -494,7 +512,7 @@ pub fn decode(kt: Kt, htx: &[u8], key: &[u8], val: &[u8]) -> Decoded {
         // bitmap
         let bit_byte = table_end + b / 8;
         let byte = htx.get(bit_byte as usize).copied().unwrap_or(0);
-        if byte & (1 << (b % 8)) == 0 {
+        if byte & (1 << (b % 8)) == 0 && mode() == Mode::Full {
             d.structure.push(format!(
                 "bucket {b} is non-empty but its occupancy bit is clear"
             ));
